@@ -215,27 +215,45 @@ func (inv *Invoice) Invert() error {
 	payable := inv.Totals.Payable.Invert()
 
 	for _, row := range inv.Lines {
+		if row == nil {
+			continue
+		}
 		row.Quantity = row.Quantity.Invert()
 		for _, d := range row.Discounts {
+			if d == nil {
+				continue
+			}
 			d.Amount = d.Amount.Invert()
 			d.Base = invertAmount(d.Base)
 		}
 		for _, c := range row.Charges {
+			if c == nil {
+				continue
+			}
 			c.Amount = c.Amount.Invert()
 			c.Base = invertAmount(c.Base)
 			c.Quantity = invertAmount(c.Quantity)
 		}
 	}
 	for _, row := range inv.Charges {
+		if row == nil {
+			continue
+		}
 		row.Amount = row.Amount.Invert()
 		row.Base = invertAmount(row.Base)
 	}
 	for _, row := range inv.Discounts {
+		if row == nil {
+			continue
+		}
 		row.Amount = row.Amount.Invert()
 		row.Base = invertAmount(row.Base)
 	}
 	if inv.Payment != nil {
 		for _, row := range inv.Payment.Advances {
+			if row == nil {
+				continue
+			}
 			row.Amount = row.Amount.Invert()
 		}
 	}
@@ -309,6 +327,13 @@ func (inv *Invoice) Normalize(normalizers tax.Normalizers) {
 	}
 	inv.Series = cbc.NormalizeCode(inv.Series)
 	inv.Code = cbc.NormalizeCode(inv.Code)
+	inv.ExchangeRates = dropNilRows(inv.ExchangeRates)
+	inv.Preceding = dropNilRows(inv.Preceding)
+	inv.Lines = dropNilRows(inv.Lines)
+	inv.Discounts = dropNilRows(inv.Discounts)
+	inv.Charges = dropNilRows(inv.Charges)
+	inv.Notes = dropNilRows(inv.Notes)
+	inv.Complements = dropNilRows(inv.Complements)
 
 	normalizers.Each(inv)
 
